@@ -51,6 +51,33 @@ def scenario(sid, seed=0):
         )
         kinds = {"o": "ORD", "q": "QNT", "c": "CAT", "z": "QNT"}
         ranks = {"o": ["lo", "mid", "hi"]}
+    elif sid == 3:
+        # several id-like qualitative columns (all dropped) next to a regular one, and quantitative features that are
+        # missing on the same block of rows
+        n = 24
+        X = pd.DataFrame(
+            {
+                "ida": pd.Series([f"a{i}" for i in range(n)], dtype=object),
+                "idb": pd.Series([f"b{i}" for i in range(n)], dtype=object),
+                "idc": pd.Series([f"c{(i * 7) % n}" for i in range(n)], dtype=object),
+                "c": pd.Series([names[i % 3] for i in range(n)], dtype=object),
+            }
+        )
+        kinds = {"ida": "CAT", "idb": "CAT", "idc": "CAT", "c": "CAT"}
+        ranks = {}
+    elif sid == 4:
+        n = 24
+        nanblock = [np.nan] * 6
+        X = pd.DataFrame(
+            {
+                "u": pd.Series(nanblock + [float(i % 6) for i in range(n - 6)], dtype=float),
+                "v": pd.Series(nanblock + [float((i * 5) % 7) for i in range(n - 6)], dtype=float),
+                "w": pd.Series([np.nan] * 3 + [float(i % 4) for i in range(n - 3)], dtype=float),
+                "c": pd.Series([names[i % 3] for i in range(n)], dtype=object),
+            }
+        )
+        kinds = {"u": "QNT", "v": "QNT", "w": "QNT", "c": "CAT"}
+        ranks = {}
     else:
         n = 24
         X = pd.DataFrame(
@@ -196,7 +223,7 @@ def real_run(args):
 
 
 def run(tier, seed, rep):
-    sids = [0, 1] if tier == "quick" else [0, 1, 2]
+    sids = [0, 1, 3, 4] if tier == "quick" else [0, 1, 2, 3, 4]
     cases = []
     # (a) subsets, orderings of the feature list, column orders -- sequential, no seams
     for cls in CLASSES:
@@ -206,6 +233,8 @@ def run(tier, seed, rep):
             for r in range(1, len(names) + 1):
                 for sub in itertools.combinations(names, r):
                     cases.append({"cls": cls, "sid": sid, "seed": seed, "mode": "subset", "feats": list(sub)})
+                    if r >= 2:  # the same subset through the parallel code path (default schedule)
+                        cases.append({"cls": cls, "sid": sid, "seed": seed, "mode": "plan", "plan": [], "n_jobs": 2, "feats": list(sub)})
             for perm in itertools.permutations(names):
                 cases.append({"cls": cls, "sid": sid, "seed": seed, "mode": "list-order", "feats": list(perm)})
                 cases.append({"cls": cls, "sid": sid, "seed": seed, "mode": "column-order", "feats": names, "columns": list(perm)})
@@ -215,7 +244,10 @@ def run(tier, seed, rep):
     for cls in CLASSES:
         for sid in sids:
             base = {"cls": cls, "sid": sid, "seed": seed, "mode": "plan", "plan": [], "n_jobs": 2}
-            r0 = run_case(base)
+            r0 = common.call_guarded(run_case, base)
+            if "trace" not in r0:  # the default schedule itself fails: report it, nothing to derive deviations from
+                rep.record(base, r0)
+                continue
             trace = r0.pop("trace")
             rep.extra.setdefault("choice_points", {})[f"{cls}/{sid}"] = [list(t) for t in trace]
             for plan in sched.deviations(trace, d):
